@@ -1011,10 +1011,17 @@ class Exec(Engine):
             if s.spec or self.feasible(s1):
                 s1.assume(AND(k >= 0, k < n))
                 s1.frame.loc[var] = self.list_get(s1, xs, k)
+                old0 = s1.fork()
+                old0.frames.append(fr.copy())
                 self.havoc_frame(s1, c, fr, node)
                 for s2, rv in self.ev(node.elt, s1):
                     c2, fr2 = self._last_contract_call
                     self.havoc_frame(s2, c2, fr2, node)
+                    # reflexive-transitive two-state postconditions of the callee (declared `stable` AND listed in
+                    # `ensures`, i.e. proved or assumed per call) hold across any number of calls
+                    for e_ in c2.stable:
+                        if e_ in c2.ensures:
+                            s2.assume(self.eval_spec(s2, e_, fr2, old=old0, assume=True))
                     if had:
                         s2.frame.loc[var] = saved
                     else:
